@@ -990,9 +990,31 @@ func (o *Output) Coq() string {
 		}
 		sb.WriteString("].\n\n")
 	}
+	// the function (and sink) each template was extracted from, parallel to the template list:
+	// Model/KsReply.v looks reply templates up by the name of the handler that writes them
+	emitNames := func(name string, sites []Site) {
+		sb.WriteString("Definition " + name + " : list bytes := [\n")
+		for i, s := range sites {
+			sb.WriteString("  (* " + coqComment(s.Name) + " *) [")
+			for j := 0; j < len(s.Name); j++ {
+				if j > 0 {
+					sb.WriteString("; ")
+				}
+				sb.WriteString(strconv.Itoa(int(s.Name[j])))
+			}
+			sb.WriteString("]")
+			if i < len(sites)-1 {
+				sb.WriteString(";")
+			}
+			sb.WriteString("\n")
+		}
+		sb.WriteString("].\n\n")
+	}
 	emit("templates", o.Docs)
+	emitNames("template_names", o.Docs)
 	emit("scan_templates", o.ScanDocs)
 	emit("value_templates", o.Values)
+	emitNames("value_template_names", o.Values)
 	emit("fragments", o.Frags)
 	sb.WriteString(fmt.Sprintf("Definition n_unknown : nat := %d%%nat.\n", len(o.Unknown)))
 	for _, u := range o.Unknown {
